@@ -29,6 +29,14 @@ fn c11_grammar(name: &str, mask: u32, pos: usize) -> Grammar {
     match pos {
         0 => stmts.push(Stmt::Call("cmd".into(), nt(name))),
         1 => stmts.push(Stmt::Call("cmd".into(), G::Sub(vec![lit("pre="), nt(name)]))),
+        // inside every other operator: the later / the first `||` branch, an alternative, an
+        // optional, a repetition, a word inside a `||` branch
+        3 => stmts.push(Stmt::Call("cmd".into(), G::Fb(vec![lit("a"), nt(name)]))),
+        4 => stmts.push(Stmt::Call("cmd".into(), G::Fb(vec![nt(name), lit("a")]))),
+        5 => stmts.push(Stmt::Call("cmd".into(), G::Alt(vec![lit("a"), G::Seq(vec![lit("b"), nt(name)])]))),
+        6 => stmts.push(Stmt::Call("cmd".into(), G::Seq(vec![lit("o"), G::Opt(Box::new(nt(name)))]))),
+        7 => stmts.push(Stmt::Call("cmd".into(), G::Seq(vec![lit("m"), G::Many(Box::new(G::Seq(vec![lit("k"), nt(name)])))]))),
+        8 => stmts.push(Stmt::Call("cmd".into(), G::Fb(vec![lit("a"), G::Sub(vec![lit("pre="), nt(name)])]))),
         _ => {
             stmts.push(Stmt::Call("cmd".into(), nt("W")));
             stmts.push(Stmt::Def("W".into(), None, G::Seq(vec![lit("x"), nt(name)])));
@@ -73,10 +81,10 @@ fn collect_cmds(item: &str, out: &mut BTreeSet<String>) {
 }
 
 pub fn c11(_thorough: bool) -> Report {
-    let mut rep = Report { bound: "names {X, PATH, DIRECTORY} x all 32 subsets of {plain, @bash, @fish, @zsh, @pwsh} command definitions (distinct texts) x reference position {top level, inside a word, through a definition} x 4 shells = 1152 grammars (the property's own finite quantifier)".into(), exhaustive: true, ..Default::default() };
+    let mut rep = Report { bound: "names {X, PATH, DIRECTORY} x all 32 subsets of {plain, @bash, @fish, @zsh, @pwsh} command definitions (distinct texts) x reference position {top level, inside a word, through a definition, in the later / first `||` branch, in an alternative, optional, repetition, word inside a `||` branch} x 4 shells = 3456 grammars (the property's own finite quantifier over names and definitions, one representative per operator for the position)".into(), exhaustive: true, ..Default::default() };
     for name in ["X", "PATH", "DIRECTORY"] {
         for mask in 0..32u32 {
-            for pos in 0..3 {
+            for pos in 0..9 {
                 let gr = c11_grammar(name, mask, pos);
                 let text = gr.print();
                 for sh in SHELLS {
@@ -398,7 +406,7 @@ pub fn replay(check: &str, args: &[String]) -> i32 {
         "c11_choice" => {
             for name in ["X", "PATH", "DIRECTORY"] {
                 for mask in 0..32u32 {
-                    for pos in 0..3 {
+                    for pos in 0..9 {
                         let gr = c11_grammar(name, mask, pos);
                         if &gr.print() == text {
                             c11_one(&gr, text, sh, &mut v);
